@@ -438,6 +438,16 @@ def r10_container_copies(idx, r):
         r.require(touches, f"{c.name}.__deepcopy__:copies-elements", dc,
                   msg=f"{c.name} is a {[b for b in c.base_exprs if b in ('dict', 'list', 'OrderedDict')][0]} but its __deepcopy__ never reads its own elements (only instance attributes are copied): "
                       "the deep copy is an empty container")
+    # a detached copy of a multi-location must not share its inner locations with the original: they still point at the old
+    # grid (they ARE that grid's cached cells), and re-associating the copy would move those cells to another grid
+    ml = idx.cls("armi.reactor.grids.locations.MultiIndexLocation")
+    dcp = ml.methods.get("detachedCopy") if ml is not None else None
+    if dcp is None:
+        raise AnchorMissing("MultiIndexLocation.detachedCopy")
+    shared = [c_ for c_ in iter_calls(dcp.node) if call_attr(c_) in ("extend", "append") and c_.args and dotted(c_.args[0]) in ("self._locations", "self")]
+    percopy = any(isinstance(c_, ast.Call) and call_attr(c_) == "detachedCopy" and not (isinstance(c_.func.value, ast.Call) and dotted(c_.func.value.func) == "super") for c_ in ast.walk(dcp.node))
+    r.require(not shared and percopy, "MultiIndexLocation.detachedCopy:inner-locations-detached", dcp, node=shared[0] if shared else dcp.node,
+              msg="the detached copy re-uses the inner IndexLocation objects: the removed component's locator has grid None but its cells still belong to (and are cached by) the old grid")
     # a block that takes over another block's content takes over a COPY: the replacement stays intact and can be used again
     rb = idx.method("armi.reactor.blocks.Block", "replaceBlockWithBlock")
     if rb is None:
